@@ -54,3 +54,7 @@ func VerifSchemaFieldNames() []string {
 	}
 	return out
 }
+
+// Named string types for the representation templates (C08, C11, C12).
+type VerifStr string
+type VerifKey string
